@@ -106,7 +106,14 @@ class FunctionInteractionsUtils(object):
         for fi0 in fi.parsed_body:
             if isinstance(fi0, FunctionInteractions):
                 res += cls.all_store_paths(fi0).items()
-        return OrderedDict(res)
+        # A function passed to dds.keep is also analysed as a function mentioned by its name, right
+        # after the keep itself and in a context that contains the keep: for the paths kept below it,
+        # the signature that counts is the one of the keep (the first one met).
+        res_dict: "OrderedDict[DDSPath, PyHash]" = OrderedDict()
+        for (p, sig) in res:
+            if p not in res_dict:
+                res_dict[p] = sig
+        return res_dict
 
     @classmethod
     def all_indirect_deps(cls, fis: FunctionInteractions) -> Set[DDSPath]:
